@@ -234,7 +234,7 @@ func c02Search(r *rand.Rand, doc map[string]any) Case {
 	var coqPred string
 	var want []string
 	var predDesc string
-	switch r.Intn(3) {
+	switch r.Intn(5) {
 	case 0:
 		var v any = 1
 		ks := sortedKeys(fp)
@@ -259,10 +259,26 @@ func c02Search(r *rand.Rand, doc map[string]any) Case {
 				want = append(want, k)
 			}
 		}
-	default:
+	case 2:
 		fn = func(any) bool { return true }
 		coqPred, predDesc = "PAll", "always"
 		want = sortedKeys(fp)
+	case 3: // the predicate sees the very value Flatten exposes: its dynamic type too
+		fn = func(v any) bool { _, ok := v.(int); return ok }
+		coqPred, predDesc = "PIsInt", "is an int"
+		for k, x := range fp {
+			if _, ok := x.(int); ok {
+				want = append(want, k)
+			}
+		}
+	default:
+		fn = func(v any) bool { _, ok := v.(float64); return ok }
+		coqPred, predDesc = "PIsFlt", "is a float64"
+		for k, x := range fp {
+			if _, ok := x.(float64); ok {
+				want = append(want, k)
+			}
+		}
 	}
 	var got []string
 	var fail []string
